@@ -357,7 +357,7 @@ impl Sim {
                             return Ok(());
                         }
                         let n = (*n as usize).max(1).min(12);
-                        let bad_col = *extra as usize;
+                        let bad_col = (seed >> 16) as usize % ncols;
                         let bad_len = match (seed >> 8) % 4 {
                             0 => n - 1,
                             1 => n + 1,
